@@ -31,6 +31,7 @@ EXTENDS VerifIO
 CONSTANTS Peers,     \* e.g. {1, 2}
           Sizes,     \* result sizes of the scatterable statements, e.g. {0, 1, 4096, 4097, 10000}
           Eps,       \* endpoints in the request alphabet: subset of {"sql","fragment","readyz","healthz","flight","both"}
+          Fmts,      \* formats in the request alphabet (all four, except in the small kill-matrix runs)
           Mutant,    \* "none" = as built
           Emit,      \* "none" (exhaustive check) | "states" (env histories, one per node state) | "walks" (simulation)
           MaxDepth   \* walks: steps per walk
@@ -77,7 +78,7 @@ RefusedTampers == {"malformed", "notjson", "oversized", "v0", "v2", "nov", "badm
 Req(ep, mode, fmt, st, tamper) == [ep |-> ep, mode |-> mode, fmt |-> fmt, st |-> st, tamper |-> tamper]
 Small == [c |-> "scatter", n |-> IF 1 \in Sizes \/ Sizes = {} THEN 1 ELSE CHOOSE k \in Sizes : TRUE]
 Requests ==
-  (IF "sql" \in Eps THEN {Req("sql", m, f, s, "none") : m \in Modes, f \in Formats, s \in Stmts} ELSE {})
+  (IF "sql" \in Eps THEN {Req("sql", m, f, s, "none") : m \in Modes, f \in Fmts, s \in Stmts} ELSE {})
   \cup (IF "fragment" \in Eps THEN {Req("fragment", "off", "arrow", s, "none") : s \in {t \in Stmts : t.c \in {"scatter", "parse"}}} ELSE {})
   \cup (IF "readyz" \in Eps THEN {Req("readyz", "off", "arrow", Small, "none")} ELSE {})
   \cup (IF "healthz" \in Eps THEN {Req("healthz", "off", "arrow", Small, "none")} ELSE {})
